@@ -172,7 +172,8 @@ def check_unrelated(case):
 
 # ---- (c) zero / several / wrong kind => the build fails
 
-REF_FAULTS = ['port_unresolvable', 'port_ambiguous', 'port_wrong_kind', 'formal_unresolvable',
+REF_FAULTS = ['port_elsewhere', 'formal_elsewhere',
+              'port_unresolvable', 'port_ambiguous', 'port_wrong_kind', 'formal_unresolvable',
               'formal_ambiguous', 'formal_wrong_kind', 'claim_reply_unresolvable',
               'claim_reply_ambiguous']
 
